@@ -1,3 +1,208 @@
-/- C20 — property theorems only (helper lemmas live in `Rooc/Proofs`). -/
+/-
+C20 — Shadow prices are the sensitivities of the optimum.  PROPERTY THEOREMS ONLY.
+
+For a certified optimal primal–dual pair `(x, y)` of the minimisation form (`checkOptimal lp x y = true`, the very
+test the exact oracle runs): the multipliers `y` are a subgradient of the optimal-value function in the right-hand
+sides (weak duality on the perturbed problem — full), inactive rows have multiplier 0 (complementary slackness —
+full), and the signs follow the table {min,max} × {≤,≥,=}.  `userPrices` turns the multipliers of the minimisation
+form into the user's objective sense, which is the convention `LpSolution::shadow_prices` is compared against.
+rooc's own part of the mapping (`collect_good_lp_duals`: non-empty names only) is covered by `unnamed_rows_absent`
+and `named_row_price`.  The values Clarabel reports are compared by the harness with exact finite differences.
+-/
+import Rooc.Proofs.Cert
+import Rooc.Proofs.SolverWrap
+import Mathlib.Data.Rat.Floor
 namespace Rooc.Props.C20
+open Rooc Rooc.Cert Rooc.SolverWrap
+
+variable {K : Type} [Field K] [LinearOrder K] [IsStrictOrderedRing K] [FloorRing K]
+
+/-- shadow prices in the USER's sense from the multipliers of the minimisation form (`max f = −min −f`). -/
+def userPrices (sense : OptType) (y : List K) : List K :=
+  match sense with
+  | .max => y.map (fun v => -v)
+  | _ => y
+
+/-- the perturbed problem: same objective, same bounds, right-hand sides `b + δ`. -/
+def perturbLP (lp : LP K) (δ : List K) : LP K := { lp with rows := perturbRows lp.rows δ }
+
+/-- SUBGRADIENT (minimisation): for a certified optimal pair `(x, y)` and EVERY perturbation `δ` of the right-hand
+sides, every feasible point `x'` of the perturbed problem has `c·x' ≥ c·x + y·δ`; i.e.
+`opt(b + δ) ≥ opt(b) + y·δ`. -/
+theorem dual_is_subgradient (lp : LP K) (x y δ : List K) (h : checkOptimal lp x y = true)
+    (hδ : δ.length = lp.rows.length) (x' : List K) (hx' : LpFeasible (perturbLP lp δ) x') :
+    dot lp.obj x + dot y δ ≤ dot lp.obj x' := by
+  unfold checkOptimal at h
+  simp only [Bool.and_eq_true, decide_eq_true_eq] at h
+  obtain ⟨_, hb⟩ := h
+  cases hd : dualBound lp.obj lp.rows lp.bnds y with
+  | none => simp [hd] at hb
+  | some v =>
+    simp [hd] at hb
+    -- the same multipliers bound the perturbed problem by `v + y·δ`
+    have hd' : dualBound lp.obj (perturbRows lp.rows δ) lp.bnds y = some (v + dot y δ) := by
+      unfold dualBound at hd ⊢
+      cases hr : reduce lp.obj lp.rows y with
+      | none => simp [hr] at hd
+      | some p =>
+        obtain ⟨d, w⟩ := p
+        rw [reduce_perturb lp.rows lp.obj y δ d w hr hδ]
+        cases hs : bndSum d lp.bnds with
+        | none => simp [hr, hs] at hd
+        | some s =>
+          simp [hr, hs] at hd
+          subst hd
+          simp only [hs, ef_add, Option.some.injEq]
+          ring
+    have hlen : lp.obj.length = x'.length := by
+      rw [dualBound_length hd, bndsSat_length x' lp.bnds hx'.2]
+    have := dualBound_le lp.obj (perturbRows lp.rows δ) lp.bnds y x' (v + dot y δ) hlen hd' hx'.1 hx'.2
+    linarith
+
+/-- SUPERGRADIENT (maximisation, user's sense): with the prices `π = −y` of `userPrices .max`, every feasible point of
+the perturbed problem has `f·x' ≤ f·x + π·δ`; i.e. `max(b + δ) ≤ max(b) + π·δ`. -/
+theorem dual_is_supergradient_max (p : Prob K) (x y δ : List K) (hs : p.sense = .max)
+    (h : checkOptimal p.relax x y = true) (hδ : δ.length = p.rows.length)
+    (x' : List K) (hx' : LpFeasible (perturbLP p.relax δ) x') :
+    dot p.obj x' ≤ dot p.obj x + dot (userPrices .max y) δ := by
+  have hrows : p.relax.rows = p.rows := rfl
+  have hsub := dual_is_subgradient p.relax x y δ h (by rw [hrows]; exact hδ) x' hx'
+  have hobj : p.relax.obj = negList p.obj := by simp [Prob.relax, hs]
+  rw [hobj, dot_negList, dot_negList] at hsub
+  have hneg : dot (userPrices .max y) δ = - dot y δ := dot_negList y δ
+  rw [hneg]; linarith
+
+/-- COMPLEMENTARY SLACKNESS: in a certified optimal pair an INACTIVE row (`a·x ≠ b`) has multiplier 0 — inactive rows
+report a zero price. -/
+theorem inactive_row_zero_price (lp : LP K) (x y : List K) (h : checkOptimal lp x y = true)
+    (i : Nat) (r : Row K) (yi : K) (hr : lp.rows[i]? = some r) (hy : y[i]? = some yi)
+    (hin : dot r.coeffs x ≠ r.rhs) : yi = 0 := by
+  unfold checkOptimal at h
+  simp only [Bool.and_eq_true, decide_eq_true_eq] at h
+  obtain ⟨⟨hlen, hfeas⟩, hb⟩ := h
+  have hx := lpFeasible_sound hfeas
+  cases hd : dualBound lp.obj lp.rows lp.bnds y with
+  | none => simp [hd] at hb
+  | some v =>
+    simp [hd] at hb
+    unfold dualBound at hd
+    cases hred : reduce lp.obj lp.rows y with
+    | none => simp [hred] at hd
+    | some p =>
+      obtain ⟨d, w⟩ := p
+      cases hs : bndSum d lp.bnds with
+      | none => simp [hred, hs] at hd
+      | some s =>
+        simp [hred, hs] at hd
+        subst hd
+        have hterm := reduce_term_le x lp.rows lp.obj y d w hred hlen hx.1 i r yi hr hy
+        have hsum := bndSum_spec d lp.bnds x s hs hx.2
+        have hrow := (hx.1 r (List.mem_of_getElem? hr)).2
+        have hle : yi * (dot r.coeffs x - r.rhs) ≤ 0 := by linarith [hterm.2]
+        have hge := signOk_mul hterm.1 hrow
+        have hz : yi * (dot r.coeffs x - r.rhs) = 0 := le_antisymm hle (by linarith)
+        rcases mul_eq_zero.mp hz with h0 | h0
+        · exact h0
+        · exact absurd (sub_eq_zero.mp h0) hin
+
+/-- SIGN CONVENTION of the prices in the user's sense, for every row of a certified optimal pair:
+
+| sense | `≤` row | `≥` row | `=` row |
+|-------|---------|---------|---------|
+| min   | π ≤ 0   | π ≥ 0   | any     |
+| max   | π ≥ 0   | π ≤ 0   | any     |
+
+(relaxing a `≤` row can only lower a minimum / raise a maximum). -/
+theorem sign_convention (p : Prob K) (x y : List K) (hne : p.sense ≠ .satisfy)
+    (h : checkOptimal p.relax x y = true)
+    (i : Nat) (r : Row K) (π : K) (hr : p.rows[i]? = some r) (hπ : (userPrices p.sense y)[i]? = some π) :
+    match p.sense, r.rel with
+    | .max, .le => 0 ≤ π
+    | .max, .ge => π ≤ 0
+    | _, .le => π ≤ 0
+    | _, .ge => 0 ≤ π
+    | _, .eq => True := by
+  unfold checkOptimal at h
+  simp only [Bool.and_eq_true, decide_eq_true_eq] at h
+  obtain ⟨⟨hlen, hfeas⟩, hb⟩ := h
+  have hx := lpFeasible_sound hfeas
+  cases hd : dualBound p.relax.obj p.relax.rows p.relax.bnds y with
+  | none => simp [hd] at hb
+  | some v =>
+    unfold dualBound at hd
+    cases hred : reduce p.relax.obj p.relax.rows y with
+    | none => simp [hred] at hd
+    | some q =>
+      obtain ⟨d, w⟩ := q
+      -- the multiplier of row i in the minimisation form
+      have key : ∀ yi, y[i]? = some yi → signOk r.rel yi = true := fun yi hy =>
+        (reduce_term_le x p.relax.rows p.relax.obj y d w hred hlen hx.1 i r yi hr hy).1
+      cases hs : p.sense with
+      | satisfy => exact absurd hs hne
+      | min =>
+        simp only [userPrices, hs] at hπ
+        have := key π hπ
+        cases hrel : r.rel <;> simp [signOk, hrel] at this ⊢ <;> exact this
+      | max =>
+        simp only [userPrices, hs, List.getElem?_map, Option.map_eq_some_iff] at hπ
+        obtain ⟨yi, hyi, rfl⟩ := hπ
+        have := key yi hyi
+        cases hrel : r.rel <;> simp [signOk, hrel] at this ⊢ <;> linarith
+
+omit [FloorRing K] in
+/-- the scale good_lp's Clarabel bridge applies to Clarabel's cone multiplier `z ≥ 0` of an inequality row
+(`shadow = z · (−objective_factor) · (±1 by relation)`, good_lp `solvers/clarabel.rs`; the convention rooc relies on
+when it forwards `dual.dual(reference)` unchanged) lands in the same sign table. -/
+theorem good_lp_scale_matches_convention (z : K) (hz : 0 ≤ z) (isMax isGe : Bool) :
+    let objFactor : K := if isMax then -1 else 1
+    let rhsScale : K := if isGe then -1 else 1
+    let π := z * (-objFactor * rhsScale)
+    match isMax, isGe with
+    | true, false => 0 ≤ π      -- max, ≤
+    | true, true => π ≤ 0       -- max, ≥
+    | false, false => π ≤ 0     -- min, ≤
+    | false, true => 0 ≤ π      -- min, ≥
+    := by
+  cases isMax <;> cases isGe <;> simp <;> linarith
+
+/-! ### rooc's own part: `collect_good_lp_duals` -/
+
+omit [Field K] [LinearOrder K] [IsStrictOrderedRing K] [FloorRing K] in
+/-- unnamed rows report no shadow price. -/
+theorem unnamed_rows_absent (duals : List (String × Ext K)) :
+    ∀ p ∈ collectDuals duals, p.1 ≠ "" := by
+  intro p hp
+  unfold collectDuals at hp
+  obtain ⟨q, hq, he⟩ := imCollect_key_mem _ p hp
+  have := (List.mem_filter.mp hq).2
+  rw [← he]
+  intro hempty
+  simp [hempty] at this
+
+omit [Field K] [LinearOrder K] [IsStrictOrderedRing K] [FloorRing K] in
+/-- a named row reports the dual of (the last row carrying) its name: with distinct names, its own. -/
+theorem named_row_price (duals : List (String × Ext K)) (name : String) (hn : name ≠ "") :
+    imGet (collectDuals duals) name = lastVal duals name := by
+  unfold collectDuals
+  rw [imCollect_get]
+  induction duals with
+  | nil => simp [lastVal]
+  | cons d ds ih =>
+    by_cases hd : d.1.isEmpty
+    · have hne : ¬ (d.1 == name) = true := by
+        intro he
+        have : d.1 = name := by simpa using he
+        rw [this] at hd
+        exact hn (by simpa [String.isEmpty_iff] using hd)
+      simp only [List.filter_cons, hd, Bool.not_true, Bool.false_eq_true, if_false, lastVal, hne, ih]
+      simp
+    · simp only [List.filter_cons, hd, Bool.not_false, if_true, lastVal, ih]
+
+/-! ### non-vacuity -/
+
+/-- `min x  s.t.  x ≥ 1` (multiplier 1) — the pair used in C05; here with the inactive row `x ≤ 5` (multiplier 0). -/
+example : @checkOptimal ℚ (fieldExact ℚ) ⟨[1], [⟨[1], .ge, 1⟩, ⟨[1], .le, 5⟩], [⟨none, none⟩]⟩ [1] [1, 0] = true := by
+  simp [checkOptimal, lpFeasible, rowHolds, bndsHold, bndHolds, loHolds, hiHolds, dualBound, reduce, signOk,
+    rowSub, bndSum, bndTerm]
+
 end Rooc.Props.C20
